@@ -232,6 +232,8 @@ pub fn non_strings() -> Vec<JV> {
         JV::Raw("1.5".into()),
         JV::Arr(vec![]),
         JV::Arr(vec![JV::Str("a".into())]),
+        JV::Arr(vec![JV::Str("read write".into()), JV::Str("admin".into())]),
+        JV::Arr(vec![JV::Str("".into())]),
         JV::Obj(vec![]),
         JV::Obj(vec![("a".into(), JV::Str("b".into()))]),
     ]
